@@ -302,3 +302,52 @@ def run(ctx):
                 if not top:
                     ctx.report(r_dirty, k, "%s does not (unconditionally) mark the dataset as changed: a stand-off dataset file is not rewritten by save() after this mutation and the change is lost on reload" % k, im["_file"], m["l"])
     ctx.floor(r_dirty, n_cb, 4, "dataset mutation callbacks")
+
+    mir_rules(ctx)
+
+
+def mir_rules(ctx):
+    """two value-flow rules on the MIR (robust against shadowing and renaming)"""
+    import mirq
+    prog = mirq.Program(ctx.facts.mir())
+    # ---- MODE
+    r_mode = ctx.rule("C05.MODE", "the offset alignment stored in a selector (OffsetMode) is taken from the offset the caller passed to AnnotationStore::selector, never from an offset computed from the resolved text selection (which is always begin-aligned)")
+    try:
+        b = prog.one(r"^annotationstore::AnnotationStore::selector$")
+    except Exception as e:
+        ctx.anchor_missing(r_mode, str(e))
+        b = None
+    n = 0
+    if b is not None:
+        ctx.functions_analysed.add(b.id)
+        for bi, t in b.calls():
+            d = mirq.callee_of(t)[0] or ""
+            if not d.endswith("Offset::mode"):
+                continue
+            n += 1
+            prov = sorted(b.provenance(t["args"][0]))
+            r_mode.hit("mode#%d" % n, sample={"call": "Offset::mode", "line": t.get("line"), "receiver_derives_from": prov})
+            calls = [x for x in prov if not x.startswith("arg")]
+            if calls or "arg2" not in prov:
+                ctx.report(r_mode, "mode-of-computed-offset", "AnnotationStore::selector stores offset.mode() of an offset that derives from %s, not (only) from the builder it was given: an end-aligned relative offset is written back begin-aligned" % (calls or prov), b.file, t.get("line"))
+        ctx.floor(r_mode, n, 2, "Offset::mode calls in AnnotationStore::selector")
+    # ---- TMPGAP
+    r_gap = ctx.rule("C05.TMPGAP", "when a reader re-creates the gap in front of an item with a temporary id !X<n>, the new length derives from n alone (the item lands on handle n), not from how many items the store held before the list was read")
+    m = 0
+    for bid, b in sorted(prog.bodies.items()):
+        if not bid.endswith("::visit_seq") or "Visitor" not in bid:
+            continue
+        for bi, t in b.calls():
+            d = mirq.callee_of(t)[0] or ""
+            if not d.endswith("resize_with") or len(t["args"]) < 2:
+                continue
+            m += 1
+            ctx.functions_analysed.add(bid)
+            prov = sorted(b.provenance(t["args"][1]))
+            r_gap.hit(bid, sample={"reader": bid, "new_len_derives_from": prov})
+            if not any(x.endswith("resolve_temp_id") for x in prov):
+                ctx.report(r_gap, "not-from-temp-id:" + bid.split("::")[1].split("<")[0], "%s resizes the store to a length that does not derive from resolve_temp_id" % bid, b.file, t.get("line"))
+            lens = [x for x in prov if re.search(r"(^|::)(\w*_)?len$", x)]
+            if lens:
+                ctx.report(r_gap, "offset-by-length:" + bid.split("::")[1].split("<")[0], "%s resizes the store to a length that also derives from %s: an item written as !X<n> no longer lands on handle n when the store was not empty before (sub-store read first), handles and temporary ids drift on every save/load cycle" % (bid, lens), b.file, t.get("line"))
+    ctx.floor(r_gap, m, 2, "gap re-creations in readers")
